@@ -2,6 +2,9 @@
 import json, os
 V = os.path.dirname(os.path.dirname(os.path.abspath(__file__)))
 reg = json.load(open(os.path.join(V, "checks", "registry.json")))
+for fn in sorted(os.listdir(os.path.join(V, "checks", "registry.d"))):
+    if fn.endswith(".json"):
+        reg["checks"][fn[:-5]] = json.load(open(os.path.join(V, "checks", "registry.d", fn)))
 props = [json.loads(l)["id"] for l in open(os.path.join(V, "properties.jsonl"))]
 checks, na = [], []
 for pid in props:
